@@ -520,6 +520,42 @@ def case_cluster(ctx, rng, idx):
                                                   "unrotated"),
                            detail={**tag, "user": p, "cell": c.id})
                 k += 1
+    # border users through the cluster-level call forms
+    if ncell >= 2 and idx % 2 == 0:
+        form = int(rng.integers(0, 4))
+        ids = sorted(int(x) for x in rng.choice(np.arange(1, ncell + 1),
+                                                size=min(ncell, int(rng.integers(1, 4))),
+                                                replace=False))
+        rr = float(rng.uniform(0.1, 0.95))
+        before = {c.id: c.num_users for c in cells}
+        if form == 0:                       # one cell, one angle
+            ids, ang = ids[:1], float(rng.uniform(0, 360))
+            args, want = (ids[0], ang, rr), {ids[0]: [ang]}
+        elif form == 1:                     # one cell, several angles
+            ids = ids[:1]
+            ang = [float(a) for a in rng.uniform(0, 360, size=3)]
+            args, want = (ids[0], ang, rr), {ids[0]: ang}
+        elif form == 2:                     # several cells, the same angle
+            ang = float(rng.uniform(0, 360))
+            args, want = (ids, ang, rr), {i: [ang] for i in ids}
+        else:                               # several cells, its own angles for each
+            ang = [[float(a) for a in rng.uniform(-90, 360, size=int(rng.integers(1, 3)))]
+                   for _ in ids]
+            args, want = (ids, ang, rr), {i: a for i, a in zip(ids, ang)}
+        okc, _ = ctx.call("border-point", cl.add_border_users, *args, cls="cluster:raised",
+                          detail={**tag, "ids": ids, "angles": ang, "form": form})
+        if okc:
+            for c in cells:
+                new = c.users[before[c.id]:]
+                wa = want.get(c.id, [])
+                ctx.ev("border-point", len(new) == len(wa), cls="cluster:users-per-cell",
+                       detail={**tag, "cell": c.id, "got": len(new), "want": len(wa),
+                               "form": form})
+                for u, a in zip(new, wa):
+                    ctx.within("border-point",
+                               abs(complex(u.pos) - complex(c.get_border_point(a, rr))),
+                               1e-12 * (abs(c.pos) + float(c.radius)), "cluster:border-user",
+                               {**tag, "cell": c.id, "angle": a, "ratio": rr, "form": form})
     ctx.sig("cluster", ctype, ncell, rc)
     ctx.sample("cluster:" + ctype, {**tag, "centres_head": centres[:3]})
 
